@@ -478,3 +478,39 @@ func (g *Gen) edgeLiteralGrid(share float64) {
 		g.setMode(0)
 	})
 }
+
+// ---- binary floating point: decimals at the edges of float64 / float32 in EVERY cohort member ------------------
+var floatEdges = []string{
+	// float64: largest finite, the overflow halfway point 2^1024 (1 - 2^-54) = 1.797693134862315807937e308, powers of ten
+	"1e308", "9e307", "2e308", "1e309", "17976931348623157e292", "17976931348623158e292", "179769313486231580793e288", "179769313486231580794e288",
+	// smallest normal and subnormals (2^-1074 = 4.94e-324; half of it 2.47e-324 ties to zero)
+	"22250738585072014e-324", "22250738585072011e-324", "5e-324", "49e-325", "25e-325", "24703282292062327e-340", "24703282292062328e-340", "1e-323", "1e-324", "3e-324",
+	// float32: largest finite 3.4028235e38, overflow halfway 3.4028235677973366e38, smallest subnormal 1.4e-45 (half: 7.006e-46)
+	"1e38", "1e39", "34028234e31", "34028235e31", "34028236e31", "3402823567797336616e20", "3402823567797336617e20",
+	"11754944e-45", "11754943e-45", "1e-45", "14e-46", "7e-46", "8e-46", "70064923216240853e-62", "70064923216240854e-62",
+}
+
+func (g *Gen) floatEdgeGrid(share float64, f func(x d128.Decimal)) {
+	type fe struct {
+		c *big.Int
+		e int
+	}
+	var cases []fe
+	for _, s := range floatEdges {
+		d, err := d128.Parse(s)
+		if err != nil {
+			continue
+		}
+		_, _, c, e := unmk(d)
+		for k := 0; ; k++ {
+			ck := new(big.Int).Mul(c, pow10(k))
+			if ck.Cmp(cMax) > 0 || e-k < eMin {
+				break
+			}
+			cases = append(cases, fe{ck, e - k})
+		}
+	}
+	g.gridRun(len(cases), share, func(i int) {
+		f(mk(g.r.Intn(2) == 0, cases[i].c, cases[i].e))
+	})
+}
